@@ -670,6 +670,9 @@ class Tr:
         return self.expr(e, env, lambda a, ta: self._truth(a, ta, env, kt, kf))
 
     def _truth(self, a, ta, env, kt, kf):
+        if ta == 'Z' and self.spec.get('int_truth'):
+            # truth value of an integer (a length): non-zero
+            return '(if (%s =? 0) then %s else %s)' % (a, kf(env), kt(env))
         if ta == ('option', 'Z') and self.spec.get('or_default'):
             # truth value of an Optional datetime: None is false, a datetime is never false
             return '(match %s with None => %s | Some _ => %s end)' % (a, kf(env), kt(env))
